@@ -448,6 +448,36 @@ impl<'c, 'a, 'ast> Visit<'ast> for BodyVisitor<'c, 'a> {
                             _ => die("loop option index-mut needs `for <ident> in &mut <place>`"),
                         }
                     }
+                    if ld.filter_range {
+                        // R18 (opt-in): `for i in (a..b).filter(|x| P) { B }` -> `for i in (a..b) { let vx_keep: bool = { let x = &i; P }; if vx_keep { B } }`.
+                        // vstd's model of `core::iter::Filter` (`Seq::filter_index`: membership only) fixes neither the order nor the
+                        // multiplicity of the yielded items, so an order-dependent loop cannot be verified against it. The rewrite is the
+                        // documented meaning of `Iterator::filter` over a `Range` (each element of the range for which the predicate
+                        // returns true, once, in increasing order) - a modelling assumption on `core`, logged like every other rewrite.
+                        // The predicate text P and the body text B are unchanged.
+                        let ok = (|| -> Option<()> {
+                            let mc = match &*l.expr { Expr::MethodCall(mc) => mc, _ => return None };
+                            if mc.method != "filter" || mc.args.len() != 1 || mc.turbofish.is_some() { return None; }
+                            let recv = match &*mc.receiver { Expr::Paren(p) => &*p.expr, other => other };
+                            if !matches!(recv, Expr::Range(_)) { return None; }
+                            let cl = match &mc.args[0] { Expr::Closure(c) => c, _ => return None };
+                            if cl.inputs.len() != 1 { return None; }
+                            let x = match &cl.inputs[0] { syn::Pat::Ident(pi) if pi.by_ref.is_none() && pi.subpat.is_none() => pi.ident.to_string(), _ => return None };
+                            let i = match &*l.pat { syn::Pat::Ident(pi) if pi.by_ref.is_none() && pi.subpat.is_none() => pi.ident.to_string(), _ => return None };
+                            let pred = self.cx.f.slice(cl.body.span()).to_string();
+                            let range = self.cx.f.slice(mc.receiver.span()).to_string();
+                            let (es, ee) = self.cx.f.range(l.expr.span());
+                            let (_, be) = self.cx.f.range(l.body.brace_token.span.open());
+                            let (ce, _) = self.cx.f.range(l.body.brace_token.span.close());
+                            self.cx.edit(es, ee, range, 0, "R18-filter-range");
+                            self.cx.edit(be, be, format!(" let vx_keep: bool = {{ let {} = &{}; {} }}; if vx_keep {{", x, i, pred), 60, "R18-filter-range");
+                            self.cx.edit(ce, ce, "} ".to_string(), -300000, "R18-filter-range");
+                            Some(())
+                        })();
+                        if ok.is_none() {
+                            die("loop option filter-range needs `for <ident> in (<range>).filter(|<ident>| <expr>)`");
+                        }
+                    }
                     if let Some(it) = &ld.iter_name {
                         let (es, _) = self.cx.f.range(l.expr.span());
                         self.cx.edit(es, es, format!("{}: ", it), 0, "R7-loop-iter");
